@@ -242,3 +242,19 @@ func (e *vEnv) vShiftAll(d time.Duration) {
 	}
 	r.m.Unlock()
 }
+
+// resetRegistry forgets every tracked registration (transports and detector hooks stay).
+func (e *vEnv) resetRegistry() {
+	old := e.rm.registeredDecoys
+	nr := NewRegisteredDecoys()
+	for k, v := range old.transports {
+		nr.transports[k] = v
+	}
+	nr.registerForDetector = old.registerForDetector
+	nr.updateInDetector = old.updateInDetector
+	e.rm.registeredDecoys = nr
+	e.mu.Lock()
+	e.anns = nil
+	e.mu.Unlock()
+}
+
